@@ -4,9 +4,10 @@
 set -u
 export GOFLAGS=-mod=mod GOPROXY=off GOSUMDB=off GOTOOLCHAIN=local
 ID=$1; M=$2
-SRC=/tmp/seeded-out/$ID/$M
-DST=/verif/seeded/$ID-$M
-WT=/tmp/vm-$ID-$M
+SRC=${SEEDED_SRC:-/tmp/seeded-out}/$ID/$M
+TAG=${SEEDED_TAG:-}
+DST=/verif/seeded/$ID-$TAG$M
+WT=/tmp/vm-$ID-$TAG$M
 mkdir -p $DST
 LOG=$DST/verify.log; : > $LOG
 git -C /repo worktree remove --force $WT >/dev/null 2>&1
@@ -30,4 +31,4 @@ if [ $applied = yes ] && go build ./... >> $LOG 2>&1; then
   for i in 1 2 3; do go test -vet=off -count=1 -timeout 10m -run "$RUN" ./tests/ >> $LOG 2>&1 || demo_fail=$((demo_fail+1)); done
 fi
 cd /; git -C /repo worktree remove --force $WT
-echo "$ID $M applied=$applied build=$build suite_with_change=$suite demo_without_change_pass=$base_ok/3 demo_with_change_fail=$demo_fail/3" | tee $DST/verify.summary
+echo "$ID $TAG$M applied=$applied build=$build suite_with_change=$suite demo_without_change_pass=$base_ok/3 demo_with_change_fail=$demo_fail/3" | tee $DST/verify.summary
